@@ -6,110 +6,15 @@
   C07 states about `reorder(bdd)`): invariant, order maps, exact counts (same ledger), declared
   names kept; every user-held reference denotes the same function of the variable names.
 
-  Also: the decorated `ite` under the ORIGINAL hypothesis `SiftSpec` of DDProofs.DynProofs with
-  the raw monotonicity hypothesis replaced by `RefExact` (`ite_dyn_spec_refExact`).
+  (The former hypothesis `SiftSpec` of DDProofs.DynProofs is refutable — `not_siftSpec` in
+  DDProofs.DynApply — and is not used here; the hypothesis `hmono` of `ite_dyn_spec` is what
+  `iteF_refKeep` (DDProofs.DynRef) proves from exact counts.)
 -/
 import DDProofs.DynSubst
 import DDProofs.VarsProofs
 open Std
 
 namespace DD
-
-/-! ### the decorated `ite` under `SiftSpec`, counts exact instead of `hmono` -/
-
-/-- `ite_dyn_spec` with the hypothesis `hmono` discharged: it follows from exact counts
-(`RefExact m ext` for some ledger `ext` of user-held references) by `iteF_refKeep`. -/
-theorem ite_dyn_spec_refExact (hS : SiftSpec) (m : Mgr) (ext : Nat → Nat) (hI : Inv m)
-    (hR : RefExact m ext) (hctx : m.ctx = false) (hn : 2 ≤ m.nvars) (g u v : Int)
-    (hg : m.tbl.Mem g) (hu : m.tbl.Mem u) (hv : m.tbl.Mem v)
-    (hhg : Held m g) (hhu : Held m u) (hhv : Held m v) :
-    ∃ r m', ite g u v m = (.ok r, m') ∧ DynPost m g u v r m' := by
-  have hW := hI.wf.toWF
-  have hraw : ∀ m0 : Mgr, iteRaw g u v m0 = iteF (m0.nvars + 2) g u v m0 := fun m0 => iteRaw_eq g u v m0
-  have h1 := iteF_spec (m.nvars + 2) { m with ctx := true } g u v (hI.setCtx true) hg hu hv
-    (by show m.nvars + 1 ≤ _; omega)
-  have k1 := iteF_refKeep (m.nvars + 2) { m with ctx := true } g u v (hI.setCtx true) hg hu hv
-    (by show m.nvars + 1 ≤ _; omega)
-  generalize hres : iteF (m.nvars + 2) g u v { m with ctx := true } = res at h1 k1
-  obtain ⟨r1, m1⟩ := res
-  cases r1 with
-  | ok r =>
-    have hp : ItePost { m with ctx := true } g u v r m1 := h1
-    refine ⟨r, { m1 with ctx := m.ctx }, ?_, ?_⟩
-    · unfold ite
-      exact tryToReorder_ok _ m r m1 (by rw [hraw]; exact hres)
-    · refine ⟨hp.inv.setCtx _, hp.mem, ?_, ?_, rfl, ?_⟩
-      · intro σ
-        have hl : m1.tbl.l2v = m.tbl.l2v := hp.frame.l2v
-        unfold denN Tbl.lift Tbl.nameOf
-        show den m1.tbl r _ = _
-        rw [hl, hp.den]
-      · show m1.lastLen.isSome = _
-        rw [hp.frame.lastLen]
-      · intro w hw _
-        refine ⟨hp.ext.mem hw, fun σ => ?_⟩
-        exact denN_of_same_l2v hp.frame.l2v w σ (fun a => den_ext hp.ext hW w a hw)
-  | error e =>
-    have he : e = .needsReordering := h1.1
-    have ha : AbortPost { m with ctx := true } m1 := h1.2
-    subst he
-    let m2 : Mgr := { m1 with ctx := m.ctx, lastLen := none }
-    have hI2 : Inv m2 := ⟨ha.inv.wf, ha.inv.pred, ha.inv.freeGe, ha.inv.free, ha.inv.refOne,
-      ha.inv.refDom, ha.inv.cache⟩
-    have hnv2 : m2.nvars = m.nvars := ha.ext.nvars.symm
-    obtain ⟨m3, hre, hI3, hl3, hc3, hnv3, hkeep⟩ := hS.run m2 hI2 rfl (by omega)
-    -- held operands survive the aborted attempt: counts are exact, hence monotone
-    have hmono : RefMono m m1 :=
-      (k1 ext (hR.congr rfl rfl)).2.congr rfl rfl
-    have hheld1 : ∀ w, Held m w → Held m2 w := fun w hw => Held.mono (m' := m2) (hmono.congr rfl rfl) hw
-    have hmem2 : ∀ w, m.tbl.Mem w → m2.tbl.Mem w := fun w hw => ha.ext.mem hw
-    have hden2 : ∀ w, m.tbl.Mem w → ∀ σ, denN m2.tbl w σ = denN m.tbl w σ := by
-      intro w hw σ
-      exact denN_of_same_l2v ha.frame.l2v w σ (fun a => den_ext ha.ext hW w a hw)
-    have kg := hkeep g (hmem2 g hg) (hheld1 g hhg)
-    have ku := hkeep u (hmem2 u hu) (hheld1 u hhu)
-    have kv := hkeep v (hmem2 v hv) (hheld1 v hhv)
-    have h2 := iteF_spec (m3.nvars + 2) { m3 with ctx := true } g u v (hI3.setCtx true)
-      kg.1 ku.1 kv.1 (by show m3.nvars + 1 ≤ _; omega)
-    generalize hres2 : iteF (m3.nvars + 2) g u v { m3 with ctx := true } = res2 at h2
-    obtain ⟨r2, m4⟩ := res2
-    cases r2 with
-    | error e2 =>
-      exfalso
-      have := h2.2.armed.2
-      rw [show ({ m3 with ctx := true } : Mgr).lastLen = m3.lastLen from rfl, hl3] at this
-      exact Bool.noConfusion this
-    | ok r =>
-      have hp : ItePost { m3 with ctx := true } g u v r m4 := h2
-      let m5 : Mgr := { m4 with ctx := m3.ctx, lastLen := some (Gen.growthFactor * m3.len) }
-      refine ⟨r, m5, ?_, ?_⟩
-      · unfold ite
-        exact tryToReorder_retry (iteRaw g u v) m m1 m3 m4 r hctx
-          (by rw [hraw]; exact hres) hre (by rw [hraw]; exact hres2)
-      · have hW3 := hI3.wf.toWF
-        refine ⟨⟨hp.inv.wf, hp.inv.pred, hp.inv.freeGe, hp.inv.free, hp.inv.refOne, hp.inv.refDom,
-          hp.inv.cache⟩, hp.mem, ?_, ?_, ?_, ?_⟩
-        · intro σ
-          have hl : m4.tbl.l2v = m3.tbl.l2v := hp.frame.l2v
-          have e1 : denN m4.tbl r σ =
-              if denN m3.tbl g σ then denN m3.tbl u σ else denN m3.tbl v σ := by
-            unfold denN Tbl.lift Tbl.nameOf
-            rw [hl, hp.den]
-          show denN m4.tbl r σ = _
-          rw [e1, kg.2.2 σ, ku.2.2 σ, kv.2.2 σ, hden2 g hg σ, hden2 u hu σ, hden2 v hv σ]
-        · show (some (Gen.growthFactor * m3.len)).isSome = m.lastLen.isSome
-          have := ha.armed.2
-          rw [show ({ m with ctx := true } : Mgr).lastLen = m.lastLen from rfl] at this
-          rw [this]; rfl
-        · show m3.ctx = m.ctx
-          rw [hc3]
-        · intro w hw hhw
-          have kw := hkeep w (hmem2 w hw) (hheld1 w hhw)
-          refine ⟨hp.ext.mem kw.1, fun σ => ?_⟩
-          have : denN m4.tbl w σ = denN m3.tbl w σ :=
-            denN_of_same_l2v hp.frame.l2v w σ (fun a => den_ext hp.ext hW3 w a kw.1)
-          show denN m4.tbl w σ = _
-          rw [this, kw.2.2 σ, hden2 w hw σ]
 
 /-! ### the state kept between decorated calls, the contract of sifting -/
 
